@@ -327,7 +327,41 @@ func (c *Ctx) execCall(fr *Frame, st *State, call *ssa.CallCommon, site ssa.Valu
 		res = c.havocVal(rt, "ext")
 	}
 	c.callSiteAsserts(fr, st, callee, args, "assert_after_call", pos, siteInstr(site))
+	c.captureResults(fr, st, callee, res)
 	return res, cont
+}
+
+// captureResults implements `capture CALLEE as NAME`: a fresh constant per result
+// that equals the result on the paths where the call is executed.
+func (c *Ctx) captureResults(fr *Frame, st *State, callee *ssa.Function, res Val) {
+	if fr.contract == nil || !fr.top || callee == nil {
+		return
+	}
+	for _, cl := range fr.contract.byKind("capture") {
+		if cl.Name != callee.Name() && cl.Name != fnKey(callee) && !(callee.Pkg != nil && cl.Name == callee.RelString(callee.Pkg.Pkg)) && !c.eng.wasCalled(callee, cl.Name) {
+			continue
+		}
+		elems := res.Elems
+		if len(elems) == 0 {
+			elems = []Val{res}
+		}
+		if c.captured == nil {
+			c.captured = map[string]Val{}
+		}
+		for i, e := range elems {
+			if e.S == "" || e.T == nil {
+				continue
+			}
+			k := c.decl("capt_"+cl.Text, c.sorts.sortOf(e.T))
+			c.assume(st.reach, fmt.Sprintf("(= %s %s)", k, e.S))
+			v := e
+			v.S = k
+			c.captured[fmt.Sprintf("%s%d", cl.Text, i)] = v
+			if i == 0 {
+				c.captured[cl.Text] = v
+			}
+		}
+	}
 }
 
 func tupleOf(rt types.Type, vals []Val) Val {
